@@ -150,12 +150,12 @@ class IdOracle(Oracle):
                 ok_int = v is not None and v.isascii() and v.isdigit() and int(v) > 0
                 if not ok_int:
                     w.report("shape-id|not-positive-int", "part=%s id=%r" % (part.partname, v), CLAUSES["shape-id"])
-                if ev.get("turbo") and ev["op"] in ("add_group", "add_freeform") :
+                if (ev.get("turbo") or w.cfg.get("turbo")) and ev["op"] in ("add_group", "add_freeform", "group_existing"):
                     # these two allocate through the XML element's own allocator, which does not advance the
                     # turbo cache of the collection (known finding F-14): remember which part is affected
                     self.tainted.add(pid)
                 if ids[v] > 1:
-                    if pid in self.tainted and ev.get("turbo"):
+                    if pid in self.tainted and (ev.get("turbo") or w.cfg.get("turbo")):
                         _memo(deck)["turbo_collision"] = True
                         w.report("shape-id|collision|turbo-cache-stale-after-add_group_shape-or-build_freeform",
                                  "part=%s id=%r used %d times" % (part.partname, v, ids[v]), CLAUSES["shape-id"])
@@ -295,7 +295,7 @@ def _lookup(w, deck, a):
     _verify_lookups(w, deck, "later")
 
 
-ADD_OPS = {"add_slide", "add_shape", "add_textbox", "add_picture", "add_connector", "add_group", "add_freeform",
+ADD_OPS = {"add_slide", "add_shape", "add_textbox", "add_picture", "add_connector", "add_group", "add_freeform", "group_existing",
            "add_table", "add_chart", "add_movie", "add_ole", "notes_access", "notes_text", "click_hyperlink",
            "click_target", "run_hyperlink", "ph_insert_picture", "ph_insert_chart", "ph_insert_table", "core_props",
            "c06.remember", "c06.lookup"}
@@ -323,7 +323,7 @@ def gen_trace(seed: int, tier: str) -> dict:
     xf = []
     if rs.random() < 0.7:
         xf.append({"kind": "ids", "mode": rs.choice(["gaps", "high", "dups", "nonnumeric", "names", "mixed", "slideids-max",
-                                                     "slideids-gaps", "slideids-max", "foreign", "foreign"]), "seed": rs.randint(0, 999)})
+                                                     "slideids-gaps", "slideids-max", "foreign", "foreign", "padded"]), "seed": rs.randint(0, 999)})
     if rs.random() < 0.3:
         xf.append({"kind": "rename_slides", "mode": rs.choice(["reverse", "rotate", "gaps", "shuffle", "lastfits", "firstbig", "midnext", "midnext2"]), "seed": rs.randint(0, 99)})
     if rs.random() < 0.3:
@@ -411,6 +411,26 @@ def pinned_traces(tier):
             {"op": "checkpoint", "sink": "seekable"}, {"op": "restart"}]
     out.append({"property": ID, "seed": "rid-gap-reuse", "tier": "pinned", "config": {"pinned": True},
                 "start": [{"deck": "default"}], "events": evs})
+    # more than ten distinct movies and more than ten distinct images (part numbers past 9: "10" sorts before "2" as text)
+    evs = [{"op": "add_slide", "layout": 6}, {"op": "add_slide", "layout": 6}]
+    for k in range(13):
+        evs.append({"op": "add_movie", "slide": k % 2, "movie": {"seed": 200 + k, "len": 64}, "src": {"via": "stream", "pos": 0}, "poster": dict(img, seed=300 + k), "psrc": {"via": "stream", "pos": 0},
+                    "mime": "video/mp4", **box})
+    for k in range(4):
+        evs.append({"op": "add_picture", "slide": 0, "img": dict(img, seed=400 + k), "src": {"via": "stream", "pos": 0}, "size": "none", **box})
+    evs += [{"op": "checkpoint", "sink": "seekable"}, {"op": "restart"},
+            {"op": "add_movie", "slide": 0, "movie": {"seed": 777, "len": 64}, "src": {"via": "stream", "pos": 0}, "poster": dict(img, seed=778), "psrc": {"via": "stream", "pos": 0}, "mime": "video/mp4", **box},
+            {"op": "checkpoint", "sink": "seekable"}]
+    out.append({"property": ID, "seed": "more-than-ten-media-parts", "tier": "pinned", "config": {"pinned": True, "max_shapes": 80}, "start": [{"deck": "default"}], "events": evs})
+    # ids written with leading zeros (legal unsignedInt lexical forms), then additions through BOTH allocators; groups made of existing shapes
+    for mode in ("padded", "gaps", "foreign"):
+        evs = [{"op": "add_shape", "slide": 0, "type": 1, **box}, {"op": "add_group", "slide": 0, "n": 1, "boxes": [box, box, box], **box},
+               {"op": "add_freeform", "slide": 0, "sx": 0, "sy": 0, "scale": 1.0, "contours": [[[10, 10], [20, 30]]], "close": True, "ox": 5, "oy": 5, **box},
+               {"op": "group_existing", "slide": 0, "members": [0, 1]}, {"op": "c06.remember", "slide": 0}, {"op": "group_existing", "slide": 0, "members": [2, 3, 1]},
+               {"op": "add_group", "slide": 0, "n": 2, "boxes": [box, box, box], "group": 0, **box}, {"op": "add_textbox", "slide": 0, "text": "t", **box},
+               {"op": "group_existing", "slide": 0, "members": [0]}, {"op": "c06.lookup"}, {"op": "checkpoint", "sink": "seekable"}, {"op": "restart"}, {"op": "c06.lookup"}]
+        out.append({"property": ID, "seed": "both-allocators-%s" % mode, "tier": "pinned", "config": {"pinned": True},
+                    "start": [{"deck": "f-shp-shapes.pptx", "xform": [{"kind": "ids", "mode": mode, "seed": 2}]}], "events": evs})
     # a relationship shared by several users (same URL on runs / on shapes, same jump target): one user changed, one cleared, then NEW
     # relationships are made on that slide - none of them may take the id the remaining users still refer to
     U = "http://example.com/shared"
